@@ -8,6 +8,7 @@ package sctp
 import (
 	"context"
 	"fmt"
+	"io"
 	"strings"
 	"sync/atomic"
 	"testing"
@@ -220,9 +221,17 @@ func vfRunCrash(t *testing.T, tr *vfTrace, x vfCrash) (nwire int, hung bool) {
 			}
 		case "readfail":
 			e.conn.rfOnce.Do(func() { close(e.conn.readFail) })
-		case "writefail":
+		case "writefail", "writefail-eof", "writefail-weof":
+			// a one-sided failure: writes fail (with an ordinary error, with io.EOF, with an error wrapping io.EOF --
+			// what a closed pipe / TLS layer returns), reads stay blocked
 			e.conn.mu.Lock()
 			e.conn.failWrite = true
+			switch x.Kind {
+			case "writefail-eof":
+				e.conn.failErr = io.EOF
+			case "writefail-weof":
+				e.conn.failErr = fmt.Errorf("transport write: %w", io.EOF)
+			}
 			e.conn.mu.Unlock()
 			// provoke a write
 			if e.a != nil {
@@ -243,7 +252,7 @@ func vfRunCrash(t *testing.T, tr *vfTrace, x vfCrash) (nwire int, hung bool) {
 				w.deliver(pk.id)
 			}
 		}
-		w.tick(1 * time.Second)
+		w.sleep(1500 * time.Millisecond) // beyond the bound for "promptly" (1 s): whatever still returns later is late
 		// the polling readers of the torn-down side clear their deadline and read again: they must get the
 		// terminal error (with the abort cause on the aborted side), not block
 		repoll := func(ep int) {
@@ -296,7 +305,7 @@ func init() {
 				mem, _ := vfNewTrace("")
 				n, _ := vfRunCrash(t, mem, vfCrash{Label: "dry", Base: base, At: -1, IL: il})
 				for at := 0; at <= n; at += stride {
-					for _, kind := range []string{"close", "abort", "readfail", "writefail", "connclose"} {
+					for _, kind := range []string{"close", "abort", "readfail", "writefail", "connclose", "writefail-eof", "writefail-weof"} {
 						for ep := 0; ep < 2; ep++ {
 							k++
 							if k%nshards != shard {
